@@ -746,9 +746,11 @@ Theorem c20_convert_sam_to_bam_file :
 Proof. exact convert_sam_bam_file_preserves. Qed.
 Print Assumptions c20_convert_sam_to_bam_file.
 
-(* what stays open (kept visible): the same for VCF <-> BCF (C09's VCF text model and C10's BCF
-   record model are not bridged by a to_bcf map yet) and for CRAM (C07's container model), the
-   file level of BAM -> SAM, and the BGZF layer of the file level (C01/C05's Bam.FileBgzf). *)
+(* what stays open (kept visible): the generic statement below for CRAM (C07's container model);
+   for SAM <-> BAM (file level, from bytes, through BGZF) and VCF <-> BCF (records and the record
+   section of a file) it is proved further down (round 7) on the domains of C05/C06/C09/C10; the
+   VCF/BCF HEADER block of a converted file (the header text is copied; hctx and the string maps
+   as functions of the header) is C09/C10 territory and an input of the variant models. *)
 Definition c20_conversions_full_statement
     (A B : Type) (read_a : list N -> option (list A)) (write_b : list A -> option (list N))
     (read_b : list N -> option (list B)) (same : A -> B -> Prop) : Prop :=
@@ -766,3 +768,280 @@ Example c20_example_convert :
     t' = [114; 9; 48; 9; 115; 113; 48; 9; 51; 9; 51; 48; 9; 50; 77; 9; 42; 9; 48; 9; 48; 9;
           65; 78; 9; 73; 73; 9; 78; 72; 58; 105; 58; 55; 10].            (* ... AN II NH:i:7 *)
 Proof. eexists. eexists. split; [vm_compute; reflexivity|]. split; vm_compute; reflexivity. Qed.
+
+(* ==================================================================================== *)
+(* Deepening round 7: conversions at FILE level from bytes, through BGZF, and VCF <-> BCF. *)
+From NV Require Import Util.ConvertFile2 Util.ConvertFile2Proofs.
+From NV Require Sam.File Bgzf.Frame Bgzf.Writer Bgzf.Reader Bgzf.Inflate.
+
+(* SAM -> BAM for a whole data set FROM BYTES: the input is the text the SAM writer emits for
+   (h, rs) -- one byte string; the split into header and record lines is the reader's (C06's
+   Sam.File.read_file: read_header through the header adapter, then read_record per line until
+   Ok(0)), no longer an input.  Conclusion as c20_convert_sam_to_bam_file, with the write-error arm
+   spelled out. *)
+Theorem c20_convert_sam_to_bam_bytes :
+  forall (fmt32 fmtd32 : N -> bytes) (parse32 : bytes -> option N) (parse32p : bytes -> option (N * bytes)),
+    (forall b, finite32 b = true -> parse32 (fmt32 b) = Some b) ->
+    (forall b, PR (fmt32 b)) ->
+    (forall b rest, finite32 b = true -> (rest = [] \/ exists r, rest = 44 :: r) ->
+                    parse32p (fmtd32 b ++ rest) = Some (b, rest)) ->
+    (forall b, PR (fmtd32 b)) ->
+    forall h rs t,
+      wf_header h -> wf_refs (Sam.File.refs_of h) ->
+      Forall (fun r => wf_rec r /\ wf_bits r /\ r_qual r <> [9]) rs ->
+      Sam.File.write_file fmt32 fmtd32 h rs = Some t ->
+      match convert_sam_bam_bytes parse32 parse32p t with
+      | CfOk file =>
+          Bam.File.read_file file
+          = Bam.Record.Ok (h, (map (fun r => Bam.CodecProofs.norm (to_bam_d (lazy_i (norm_i r)))) rs,
+                               Bam.File.EndEof))
+          /\ Forall (fun r => by_value (Bam.CodecProofs.norm (to_bam_d (lazy_i (norm_i r))))
+                              = by_value (Bam.CodecProofs.norm (to_bam_d r))) rs
+      | CfWriteErr =>
+          exists e, Bam.File.write_file h (map (fun r => to_bam_d (lazy_i (norm_i r))) rs) = Bam.Record.Err e
+      | _ => False
+      end.
+Proof. exact convert_sam_bam_bytes_preserves. Qed.
+Print Assumptions c20_convert_sam_to_bam_bytes.
+
+(* BAM -> SAM for a whole data set: the uncompressed stream the BAM writer emits for (h, rs)
+   through the generic reader (lazy bam::Record per block) into the SAM writer: either the SAM
+   writer rejects the header or a record, or the SAM reader reads the produced TEXT (from bytes)
+   to its end as the same header and, record for record, r with bases in BAM's alphabet, a user CG
+   field dropped and integer tags in the smallest type. *)
+Theorem c20_convert_bam_to_sam_file :
+  forall (fmt32 fmtd32 : N -> bytes) (parse32 : bytes -> option N) (parse32p : bytes -> option (N * bytes)),
+    (forall b, finite32 b = true -> parse32 (fmt32 b) = Some b) ->
+    (forall b, PR (fmt32 b)) ->
+    (forall b rest, finite32 b = true -> (rest = [] \/ exists r, rest = 44 :: r) ->
+                    parse32p (fmtd32 b ++ rest) = Some (b, rest)) ->
+    (forall b, PR (fmtd32 b)) ->
+    forall h rs file,
+      wf_header h -> wf_refs (Sam.File.refs_of h) -> Forall (fun r => wf_rec r /\ wf_bits r) rs ->
+      Bam.File.write_file h (map to_bam_d rs) = Bam.Record.Ok file ->
+      match convert_bam_sam_file fmt32 fmtd32 file with
+      | CbOk text => Sam.File.read_file parse32 parse32p text
+                     = Some (h, (map (fun r => norm_rec (norm_s r)) rs, Sam.File.FEof))
+      | CbWriteErr => Sam.File.write_file fmt32 fmtd32 h (map norm_s rs) = None
+      | _ => False
+      end.
+Proof. exact convert_bam_sam_file_preserves. Qed.
+Print Assumptions c20_convert_bam_to_sam_file.
+
+(* SAM -> BAM -> SAM at file level, from bytes to bytes *)
+Theorem c20_convert_sam_bam_sam_file :
+  forall (fmt32 fmtd32 : N -> bytes) (parse32 : bytes -> option N) (parse32p : bytes -> option (N * bytes)),
+    (forall b, finite32 b = true -> parse32 (fmt32 b) = Some b) ->
+    (forall b, PR (fmt32 b)) ->
+    (forall b rest, finite32 b = true -> (rest = [] \/ exists r, rest = 44 :: r) ->
+                    parse32p (fmtd32 b ++ rest) = Some (b, rest)) ->
+    (forall b, PR (fmtd32 b)) ->
+    forall h rs t,
+      wf_header h -> wf_refs (Sam.File.refs_of h) ->
+      Forall (fun r => wf_rec r /\ wf_bits r /\ r_qual r <> [9]) rs ->
+      Sam.File.write_file fmt32 fmtd32 h rs = Some t ->
+      match convert_sam_bam_sam_bytes fmt32 fmtd32 parse32 parse32p t with
+      | Some (CbOk text) => Sam.File.read_file parse32 parse32p text
+                            = Some (h, (map (fun r => norm_i (norm_s r)) rs, Sam.File.FEof))
+      | Some CbWriteErr => Sam.File.write_file fmt32 fmtd32 h (map (fun r => norm_s (lazy_i (norm_i r))) rs) = None
+      | None => exists e, Bam.File.write_file h (map (fun r => to_bam_d (lazy_i (norm_i r))) rs) = Bam.Record.Err e
+      | _ => False
+      end.
+Proof. exact convert_sam_bam_sam_bytes_preserves. Qed.
+Print Assumptions c20_convert_sam_bam_sam_file.
+
+(* THE BGZF LAYER at file level, for EVERY codec: deflate / inflate are universally quantified
+   under the three premises of C01's writer/reader theorem (the level-0 fallback fits a block;
+   inflate inverts deflate on a block; the EOF block's CDATA inflate to nothing).  The stream the
+   BAM side writes goes through bgzf::io::Writer (write_all, finish) and is read through
+   bgzf::io::Reader::read_to_end: nothing is lost, so both file theorems hold through BGZF. *)
+Theorem c20_bgzf_layer_lossless :
+  forall (deflate : N -> list N -> list N) (inflate : list N -> N -> option (list N)) (lvl : N),
+    (forall x, Bgzf.Frame.lenN x <= Bgzf.Writer.MAX_BUF_SIZE ->
+               Bgzf.Frame.lenN (deflate 0 x) <= Bgzf.Writer.MAX_COMPRESSED_SIZE) ->
+    (forall l x, Bgzf.Frame.lenN x <= Bgzf.Frame.BGZF_MAX_ISIZE -> inflate (deflate l x) (Bgzf.Frame.lenN x) = Some x) ->
+    inflate [3; 0] 0 = Some [] ->
+    forall bs, bgzf_unwrap inflate (bgzf_wrap deflate lvl bs) = Some bs.
+Proof. exact bgzf_unwrap_wrap. Qed.
+Print Assumptions c20_bgzf_layer_lossless.
+
+Theorem c20_convert_sam_to_bam_bgzf :
+  forall (fmt32 fmtd32 : N -> bytes) (parse32 : bytes -> option N) (parse32p : bytes -> option (N * bytes)),
+    (forall b, finite32 b = true -> parse32 (fmt32 b) = Some b) ->
+    (forall b, PR (fmt32 b)) ->
+    (forall b rest, finite32 b = true -> (rest = [] \/ exists r, rest = 44 :: r) ->
+                    parse32p (fmtd32 b ++ rest) = Some (b, rest)) ->
+    (forall b, PR (fmtd32 b)) ->
+  forall (deflate : N -> list N -> list N) (inflate : list N -> N -> option (list N)) (lvl : N),
+    (forall x, Bgzf.Frame.lenN x <= Bgzf.Writer.MAX_BUF_SIZE ->
+               Bgzf.Frame.lenN (deflate 0 x) <= Bgzf.Writer.MAX_COMPRESSED_SIZE) ->
+    (forall l x, Bgzf.Frame.lenN x <= Bgzf.Frame.BGZF_MAX_ISIZE -> inflate (deflate l x) (Bgzf.Frame.lenN x) = Some x) ->
+    inflate [3; 0] 0 = Some [] ->
+    forall h rs t,
+      wf_header h -> wf_refs (Sam.File.refs_of h) ->
+      Forall (fun r => wf_rec r /\ wf_bits r /\ r_qual r <> [9]) rs ->
+      Sam.File.write_file fmt32 fmtd32 h rs = Some t ->
+      match convert_sam_bam_bgzf parse32 parse32p deflate lvl t with
+      | CfOk out => exists file, bgzf_unwrap inflate out = Some file /\
+          Bam.File.read_file file
+          = Bam.Record.Ok (h, (map (fun r => Bam.CodecProofs.norm (to_bam_d (lazy_i (norm_i r)))) rs,
+                               Bam.File.EndEof))
+          /\ Forall (fun r => by_value (Bam.CodecProofs.norm (to_bam_d (lazy_i (norm_i r))))
+                              = by_value (Bam.CodecProofs.norm (to_bam_d r))) rs
+      | CfWriteErr =>
+          exists e, Bam.File.write_file h (map (fun r => to_bam_d (lazy_i (norm_i r))) rs) = Bam.Record.Err e
+      | _ => False
+      end.
+Proof. exact convert_sam_bam_bgzf_preserves. Qed.
+Print Assumptions c20_convert_sam_to_bam_bgzf.
+
+Theorem c20_convert_bam_bgzf_to_sam :
+  forall (fmt32 fmtd32 : N -> bytes) (parse32 : bytes -> option N) (parse32p : bytes -> option (N * bytes)),
+    (forall b, finite32 b = true -> parse32 (fmt32 b) = Some b) ->
+    (forall b, PR (fmt32 b)) ->
+    (forall b rest, finite32 b = true -> (rest = [] \/ exists r, rest = 44 :: r) ->
+                    parse32p (fmtd32 b ++ rest) = Some (b, rest)) ->
+    (forall b, PR (fmtd32 b)) ->
+  forall (deflate : N -> list N -> list N) (inflate : list N -> N -> option (list N)) (lvl : N),
+    (forall x, Bgzf.Frame.lenN x <= Bgzf.Writer.MAX_BUF_SIZE ->
+               Bgzf.Frame.lenN (deflate 0 x) <= Bgzf.Writer.MAX_COMPRESSED_SIZE) ->
+    (forall l x, Bgzf.Frame.lenN x <= Bgzf.Frame.BGZF_MAX_ISIZE -> inflate (deflate l x) (Bgzf.Frame.lenN x) = Some x) ->
+    inflate [3; 0] 0 = Some [] ->
+    forall h rs file,
+      wf_header h -> wf_refs (Sam.File.refs_of h) -> Forall (fun r => wf_rec r /\ wf_bits r) rs ->
+      Bam.File.write_file h (map to_bam_d rs) = Bam.Record.Ok file ->
+      match convert_bam_sam_bgzf fmt32 fmtd32 inflate (bgzf_wrap deflate lvl file) with
+      | CbOk text => Sam.File.read_file parse32 parse32p text
+                     = Some (h, (map (fun r => norm_rec (norm_s r)) rs, Sam.File.FEof))
+      | CbWriteErr => Sam.File.write_file fmt32 fmtd32 h (map norm_s rs) = None
+      | _ => False
+      end.
+Proof. exact convert_bam_sam_bgzf_preserves. Qed.
+Print Assumptions c20_convert_bam_bgzf_to_sam.
+
+(* the premises are satisfiable: C01's stored-block compressor and executable inflater (the
+   instance the correspondence check runs) *)
+Theorem c20_bgzf_layer_level0 : forall lvl bs,
+  bgzf_unwrap Bgzf.Inflate.inflate (bgzf_wrap Bgzf.Inflate.deflate_l0 lvl bs) = Some bs.
+Proof. exact bgzf_unwrap_wrap_l0. Qed.
+Print Assumptions c20_bgzf_layer_level0.
+
+(* ---- VCF <-> BCF ---- *)
+(* One record datatype for both formats (C09's vrec = what a RecordBuf holds; C10's bridge puts the
+   BCF writer and reader on it).  hctx / the two string maps are inputs.  Float text is C09's
+   oracle (four premises).  rec_ok: C09's domain of the line theorem; conv_dom: C10's bcf_dom (the
+   conditions the BCF writer checks, ranges of the format), outside the class string-special-chars
+   (bcf_special, decidable, exact), the two u32 size bounds of the frame.
+
+   VCF -> BCF: the line the VCF writer emits for r, through the generic reader (lazy vcf::Record,
+   every accessor forced by the encoder) into the BCF writer (write_site asks for variant_span):
+   the conversion SUCCEEDS, and the BCF reader reads the produced block -- whatever follows it --
+   as a record with the CONTENT of r (NV.Bcf.Bridge.content: REF bases resolved, trailing missing
+   sample values, first-allele phasing before 4.4, lone-missing vectors). *)
+From NV Require Import Text.TextBase Vcf.Values Vcf.Span Vcf.Line Vcf.LineProofs.
+From NV Require Import Bcf.StringMap Bcf.StringMapProofs Bcf.Record Bcf.RecordTyped Bcf.Bridge Bcf.BridgeProofs Bcf.ColumnProofs.
+From NV Require Bcf.Lazy Bcf.LazyEagerProofs Bcf.LazySiteProofs.
+From NV Require Import Util.ConvertVariant Util.ConvertVariantProofs.
+Open Scope N_scope.
+
+Theorem c20_convert_vcf_to_bcf :
+  forall (fmt_float : N -> list N) (prs_float : list N -> option N) (FOK : N -> Prop),
+    (forall b, FOK b -> prs_float (fmt_float b) = Some b) ->
+    (forall b x, FOK b -> In x (fmt_float b) -> x <> 44 /\ x <> 9 /\ x <> 10 /\ x <> 59 /\ x <> 58) ->
+    (forall b, FOK b -> fmt_float b <> Values.dot) ->
+    (forall b, FOK b -> fmt_float b <> []) ->
+    forall v45 strings contigs h r t n rest,
+      wf strings -> wf contigs ->
+      rec_ok fmt_float FOK h r -> write_line fmt_float h r = Some t ->
+      rec_span v45 (canon h r) = TextBase.Ok n ->
+      conv_dom strings contigs h (Z.of_N n) (canon h r) ->
+      exists bs b,
+        convert_vcf_bcf prs_float v45 strings contigs h t = VvOk bs /\
+        bcf_read strings contigs h (bs ++ rest) = Typed.ROk b /\
+        content (h_v44 h) b = content (h_v44 h) r.
+Proof. exact convert_vcf_bcf_preserves. Qed.
+Print Assumptions c20_convert_vcf_to_bcf.
+
+(* ... from ANY line with samples, written or not: whatever record the lazy reader makes of it, if
+   that record is in BCF's domain the conversion writes it and the BCF reader gives back bback of
+   it (the record with every sample row completed to one value per key) *)
+Theorem c20_convert_vcf_to_bcf_any_line :
+  forall (prs_float : list N -> option N) v45 strings contigs h t a n rest,
+    wf strings -> wf contigs ->
+    read_lazy prs_float h t = Some a -> rec_span v45 a = TextBase.Ok n ->
+    bcf_samples_dom strings contigs h (Z.of_N n) a -> bcf_special a = false ->
+    (forall sb, enc_site strings contigs (site_of h (Z.of_N n) a) (info_fields a)
+                  (Z.of_nat (length (r_keys a))) = Ints.Ok sb -> (Z.of_nat (length sb) <= 4294967295)%Z) ->
+    (forall fb, enc_fields strings (fmt_fields h a) = Ints.Ok fb -> (Z.of_nat (length fb) <= 4294967295)%Z) ->
+    exists bs,
+      convert_vcf_bcf prs_float v45 strings contigs h t = VvOk bs /\
+      bcf_read strings contigs h (bs ++ rest) = Typed.ROk (bback h a).
+Proof. exact convert_vcf_bcf_any_line. Qed.
+Print Assumptions c20_convert_vcf_to_bcf_any_line.
+
+(* BCF -> VCF: the lazy bcf::Record of a block through the VCF writer.  If the record the lazy path
+   hands out (t') is in C09's domain and the VCF writer accepts it, the conversion emits exactly
+   that line + LF, and BOTH VCF readers read the line back as canon of the record. *)
+Theorem c20_convert_bcf_to_vcf :
+  forall (fmt_float : N -> list N) (prs_float : list N -> option N) (FOK : N -> Prop),
+    (forall b, FOK b -> prs_float (fmt_float b) = Some b) ->
+    (forall b x, FOK b -> In x (fmt_float b) -> x <> 44 /\ x <> 9 /\ x <> 10 /\ x <> 59 /\ x <> 58) ->
+    (forall b, FOK b -> fmt_float b <> Values.dot) ->
+    (forall b, FOK b -> fmt_float b <> []) ->
+    forall strings contigs h bs t' l,
+      Lazy.lazy_read (h_v44 h) strings contigs (ik_of h) (fk_of h) bs = Typed.ROk t' ->
+      rec_ok fmt_float FOK h (vrec_of t') -> write_line fmt_float h (vrec_of t') = Some l ->
+      convert_bcf_vcf fmt_float strings contigs h bs = VvOk (l ++ [10]) /\
+      read_eager prs_float h l = Some (canon h (vrec_of t')) /\
+      read_lazy prs_float h l = Some (canon h (vrec_of t')).
+Proof. exact convert_bcf_vcf_preserves. Qed.
+Print Assumptions c20_convert_bcf_to_vcf.
+
+(* ... and that lazy record is the record of the EAGER BCF reader up to C10's trec_norm, on every
+   block the eager reader accepts (C10's lazy = eager; lazy_agree = the record's Characters are ASCII) *)
+Theorem c20_convert_bcf_to_vcf_reads_as_eager : forall strings contigs h bs t,
+  LazySiteProofs.byte_list bs ->
+  dec_record_typed strings contigs (ik_of h) (fk_of h) (Z.of_nat (h_nsamples h)) bs = Typed.ROk t ->
+  LazyEagerProofs.lazy_agree strings contigs (ik_of h) (fk_of h) (Z.of_nat (h_nsamples h)) bs = true ->
+  exists t', Lazy.lazy_read (h_v44 h) strings contigs (ik_of h) (fk_of h) bs = Typed.ROk t' /\
+             Lazy.trec_norm (h_v44 h) t' = Lazy.trec_norm (h_v44 h) t.
+Proof. exact convert_bcf_vcf_reads_as_eager. Qed.
+Print Assumptions c20_convert_bcf_to_vcf_reads_as_eager.
+
+(* THE RECORD SECTION OF A FILE, VCF -> BCF: the lines the VCF writer emits for rs converted one
+   after the other; the run succeeds, the produced bytes are exactly the concatenated blocks, and
+   the BCF reader's loop (read_record_buf until the input is used up) reads them to their END as
+   exactly as many records, each with the content of its source record.  (The header block of the
+   file is the header text, copied; it is not part of this statement.) *)
+Theorem c20_convert_vcf_to_bcf_file :
+  forall (fmt_float : N -> list N) (prs_float : list N -> option N) (FOK : N -> Prop),
+    (forall b, FOK b -> prs_float (fmt_float b) = Some b) ->
+    (forall b x, FOK b -> In x (fmt_float b) -> x <> 44 /\ x <> 9 /\ x <> 10 /\ x <> 59 /\ x <> 58) ->
+    (forall b, FOK b -> fmt_float b <> Values.dot) ->
+    (forall b, FOK b -> fmt_float b <> []) ->
+    forall v45 strings contigs h rs ts,
+      wf strings -> wf contigs ->
+      Forall2 (conv_rec_ok fmt_float FOK v45 strings contigs h) rs ts ->
+      forall i, exists out bs',
+        convert_vcf_bcf_lines prs_float v45 strings contigs h i ts = VfOk out /\
+        (forall fuel, (length out < fuel)%nat -> bcf_read_all fuel strings contigs h out = Some bs') /\
+        map (content (h_v44 h)) bs' = map (content (h_v44 h)) rs.
+Proof. exact convert_vcf_bcf_lines_preserve. Qed.
+Print Assumptions c20_convert_vcf_to_bcf_file.
+
+(* non-vacuity: one sites-only record `c0 5 . A G . . DP=7` under a header with INFO DP, VCF -> BCF
+   (the block is read back with DP = 7) -> VCF (the same line + LF) *)
+Example c20_example_convert_variant :
+  let dp := [68; 80] in
+  let h := {| h_v44 := false; h_infos := [(dp, (NCount 1, TInteger))]; h_formats := []; h_nsamples := 0%nat |} in
+  let line := [99;48;9;53;9;46;9;65;9;71;9;46;9;46;9;68;80;61;55] in   (* c0 5 . A G . . DP=7 *)
+  exists strings contigs bs b,
+    build_strings [(dp, None)] = Some strings /\ build_contigs [([99;48], None)] = Some contigs /\
+    convert_vcf_bcf (fun _ => None) false strings contigs h line = VvOk bs /\
+    bcf_read strings contigs h bs = Typed.ROk b /\ r_info b = [(dp, Some (VInteger 7%Z))] /\
+    convert_bcf_vcf (fun _ => []) strings contigs h bs = VvOk (line ++ [10]).
+Proof.
+  eexists. eexists. eexists. eexists.
+  split; [vm_compute; reflexivity|]. split; [vm_compute; reflexivity|].
+  split; [vm_compute; reflexivity|]. split; [vm_compute; reflexivity|]. split; vm_compute; reflexivity.
+Qed.
